@@ -4,7 +4,7 @@
 jobs=${1:-3}
 cd /verif
 one() {
-  d=$1; id=$(basename $d); pid=${id%-a}
+  d=$1; id=$(basename $d); pid=${id%-*}
   if ! git -C /repo apply --check $d/patch.diff 2>/dev/null; then echo "$id DOES-NOT-APPLY"; return; fi
   q=$(tools/trymut2.sh $d/patch.diff $pid quick 2>&1 | tail -1)
   if [ "$q" = "rc=1" ]; then echo "$id caught-by-quick"; return; fi
@@ -12,4 +12,4 @@ one() {
   if [ "$t" = "rc=1" ]; then echo "$id caught-by-thorough (quick: $q)"; else echo "$id MISSED (quick: $q thorough: $t)"; fi
 }
 export -f one
-ls -d /verif/seeded/*-a | xargs -P $jobs -I{} bash -c "one {}" | tee /verif/.work/allseeded.log
+ls -d /verif/seeded/*-${SEEDED_ROUND:-[a-z]} | xargs -P $jobs -I{} bash -c "one {}" | tee /verif/.work/allseeded.log
